@@ -866,13 +866,16 @@ func (l *vC01Lab) install(kind, target string) bool {
 				}
 			}
 		}
-	case "bare-nxdomain": // the zone's answers replaced by a name error that brings nothing: no SOA, no denial, no signature
+	case "bare-nxdomain", "bare-nodata": // the zone's answers replaced by a denial that brings nothing: no SOA, no NSEC / NSEC3, no signature
 		f = func(s *vC01LServer, z *vC01LZone, q dns.Question, m *dns.Msg) {
 			if z != tz || q.Qtype == dns.TypeDNSKEY || q.Qtype == dns.TypeDS || q.Qtype == dns.TypeNS || strings.HasPrefix(strings.ToLower(q.Name), "ns.") {
 				return
 			}
 			m.Answer, m.Ns, m.Extra = nil, nil, nil
 			m.Rcode = dns.RcodeNameError
+			if kind == "bare-nodata" {
+				m.Rcode = dns.RcodeSuccess
+			}
 		}
 	case "ds-sig-alg": // downgrade: the signature over the target's DS (or over its denial) claims an unimplemented algorithm; below the cut data is forged, unsigned
 		f = func(s *vC01LServer, z *vC01LZone, q dns.Question, m *dns.Msg) {
@@ -1183,7 +1186,7 @@ func TestVerifC01Lab(t *testing.T) {
 	tampers := []string{"none", "none", "strip-sigs", "alter-a", "expired", "signer-name", "bitflip", "labels", "forged-untrusted-key", "dnskey-extra-key",
 		"ds-swap", "ds-drop", "nsec-drop", "nxdomain-forged", "inject-foreign", "island-hijack", "no-anchor", "wildcard-replay", "wildcard-replay-decoy", "parent-denial-nxdomain", "parent-denial-nodata",
 		"wildcard-replay-foreign-nsec", "wildcard-replay-parent-nsec", "wildcard-replay-foreign-nsec3", "wildcard-replay-straddling-nsec",
-		"alter-a-sig-alg", "sig-alg", "ds-sig-alg", "bare-nxdomain"}
+		"alter-a-sig-alg", "sig-alg", "ds-sig-alg", "bare-nxdomain", "bare-nodata"}
 	run := func(topo, tam, target string, q tq, origin string) {
 		lab, ok := vC01BuildLab(t, r, topo)
 		if !ok {
@@ -1232,6 +1235,13 @@ func TestVerifC01Lab(t *testing.T) {
 			goFail := ""
 			if !cd && tz.secure && m.Rcode != dns.RcodeServerFailure && !dataOK {
 				goFail = "altered data served to a validating client for a name under a signed chain"
+			}
+			// "missing its denial proof -> SERVFAIL": under a chain signed up to the anchor a denial reaches a validating
+			// client only after authority() authenticated it, which a client that set DO or AD sees as the AD bit (a denial
+			// resting on an Opt-Out span is the one exception)
+			denial := m.Rcode == dns.RcodeNameError || (m.Rcode == dns.RcodeSuccess && len(m.Answer) == 0)
+			if !cd && tz.secure && anchor && denial && (do || ad) && !adOptional && !m.AuthenticatedData && goFail == "" {
+				goFail = "a denial nobody authenticated served to a validating client for a name under a signed chain"
 			}
 			if m.AuthenticatedData && !(tz.secure && dataOK) {
 				goFail = "AD set on a reply that is not authentic up to the trust anchor"
